@@ -233,3 +233,33 @@ Definition render (tbl : list hdr) (body : bytes) : bytes :=
    sorted by key again before returning (so that searchheader's precondition holds) *)
 Definition message_write (m : msg) : bytes * msg :=
   (render (m_headers m) (m_body m), mkmsg (sort_key (sort_id (m_headers m))) (m_body m)).
+
+(* ---- expr_eval_header ------------------------------------------------------------------------ *)
+(* rx stands for regexec() with the expression's compiled pattern: Some offsets or None (no match).
+   The first matching value in (name order, table order) is the one whose captures are recorded. *)
+Section HeaderCond.
+  Variable rx : bytes -> option (list (nat * nat)).
+
+  Fixpoint first_match (vals : list bytes) : option (bytes * list (nat * nat)) :=
+    match vals with
+    | [] => None
+    | v :: r => match rx v with
+                | Some off => Some (v, off)
+                | None => first_match r
+                end
+    end.
+
+  Fixpoint eval_header (tbl : list hdr) (names : list bytes) : option (bytes * bytes * list (nat * nat)) :=
+    match names with
+    | [] => None
+    | n :: r =>
+        match get_header tbl n with
+        | None => eval_header tbl r
+        | Some vals =>
+            match first_match vals with
+            | Some (v, off) => Some (n, v, off)
+            | None => eval_header tbl r
+            end
+        end
+    end.
+End HeaderCond.
